@@ -132,4 +132,42 @@ func gen(rng *rand.Rand, tier core.Tier, emit core.Emit) {
 		}
 		emit("q", strings.Join(clients, ","), strings.Join(events, ","))
 	}
+	// the instance table under the same scheduler: ids registered, registered again (a heartbeat refreshes the binding) and
+	// removed while a Clear stands between its index scan and its delete — payloads and index must leave together whatever
+	// happened in between
+	ids := []string{"00000001", "deadbeef", "00ff00ff", "7f000001"}
+	for c := 0; c < n/5; c++ {
+		var clients, events []string
+		clock := epoch
+		pre := 1 + rng.Intn(3)
+		for i := 0; i < pre; i++ {
+			events = append(events, fmt.Sprintf("r%d", len(clients)))
+			clients = append(clients, fmt.Sprintf("@insadd|%s|1.1.1.%d:10480", ids[i], i+1))
+		}
+		d := int64(1+rng.Intn(4)) * sec
+		clock += d
+		events = append(events, fmt.Sprintf("t%d", d))
+		if rng.Intn(2) == 0 {
+			events = append(events, fmt.Sprintf("r%d", len(clients)))
+			clients = append(clients, fmt.Sprintf("@insadd|%s|1.1.1.9:10480", ids[3]))
+		}
+		base := len(clients)
+		cutoff := fmt.Sprint(clock - int64(rng.Intn(3))*256)
+		if rng.Intn(5) == 0 {
+			cutoff = "z"
+		}
+		third := fmt.Sprintf("@insrm|%s", ids[rng.Intn(pre)])
+		if rng.Intn(2) == 0 {
+			third = fmt.Sprintf("@insadd|%s|2.2.2.2:10480", ids[rng.Intn(len(ids))])
+		}
+		clients = append(clients, "@insclear|"+cutoff, fmt.Sprintf("@insadd|%s|1.1.1.1:10480", ids[rng.Intn(pre)]), third)
+		for i := 0; i < 4+rng.Intn(10); i++ {
+			if rng.Intn(12) == 0 {
+				events = append(events, fmt.Sprintf("t%d", int64(rng.Intn(3))*sec+256))
+				continue
+			}
+			events = append(events, fmt.Sprintf("s%d", base+rng.Intn(3)))
+		}
+		emit("q", strings.Join(clients, ","), strings.Join(events, ","))
+	}
 }
